@@ -134,6 +134,7 @@ func (t *Torrent) announce(ipv6 bool) {
 		prot = "IPv6"
 	}
 	t.Log.Printf("Starting %v announce for %v\n", prot, t.Hash)
+	verifAnnounceTap(t.Hash, ipv6, port)
 	dht.Announce(t.Hash, ipv6, port)
 	t.announceTime = time.Now()
 }
@@ -1793,6 +1794,7 @@ func Expire() int {
 		return 0
 	}
 
+	verifYield("Expire.afterSample")
 	count := count()
 	fair := low / int64(count)
 
@@ -1808,6 +1810,7 @@ func Expire() int {
 		return true
 	})
 
+	verifYield("Expire.afterCount")
 	fair2 := (low - smallspace) / int64(bigcount)
 
 	Range(func(h hash.Hash, t *Torrent) bool {
